@@ -88,8 +88,10 @@ class WARCRecord(object):
             return
 
         with wpull.util.reset_file_offset(self.block_file):
+            start_offset = self.block_file.tell()
             wpull.util.seek_file_end(self.block_file)
-            self.fields['Content-Length'] = str(self.block_file.tell())
+            self.fields['Content-Length'] = str(
+                self.block_file.tell() - start_offset)
 
     def compute_checksum(self, payload_offset: Optional[int]=None):
         '''Compute and add the checksum data to the record fields.
@@ -104,6 +106,8 @@ class WARCRecord(object):
         payload_hasher = hashlib.sha1()
 
         with wpull.util.reset_file_offset(self.block_file):
+            start_offset = self.block_file.tell()
+
             if payload_offset is not None:
                 data = self.block_file.read(payload_offset)
                 block_hasher.update(data)
@@ -115,7 +119,7 @@ class WARCRecord(object):
                 block_hasher.update(data)
                 payload_hasher.update(data)
 
-            content_length = self.block_file.tell()
+            content_length = self.block_file.tell() - start_offset
 
         content_hash = block_hasher.digest()
 
